@@ -147,6 +147,10 @@ def gen_network(rng, focus):
                 nodes.append({'kind': 'filter', 'prev': i, 'f': 'keyEven'}); kinds.append('P')
             else:
                 nodes.append({'kind': ch, 'a': i, 'b': rng.choice(same)}); kinds.append('X')
+    # a count directly below a window may be taken through the library's own countByWindow
+    for nd in nodes:
+        if nd['kind'] == 'count' and nodes[nd['prev']]['kind'] == 'window' and rng.random() < .6:
+            nd['cbw'] = rng.choice(['slide', 'noslide'])
     # output actions: at least one, possibly several consumers of the same stream
     n0 = len(nodes)
     for _ in range(rng.randint(1, 3)):
@@ -159,6 +163,7 @@ def gen_network(rng, focus):
 class C10(Prop):
     id = 'C10'
     focus = 'C10'
+    extracted = True      # source streams regenerated from the current source (harness/extract_m.py, Extracted/EquivC10.lean)
     quick_cases = 1500
     thorough_cases = 25000
     quick_budget_s = 50
@@ -212,6 +217,10 @@ class C10(Prop):
         win = {'sources': [{'queue': [[1], [2], [3], [4], [5], [6]], 'oneAtATime': True, 'default': None}],
                'nodes': [{'kind': 'src', 'q': 0}, {'kind': 'window', 'prev': 0, 'w': 3, 's': 2}, {'kind': 'out', 'prev': 1},
                          {'kind': 'count', 'prev': 1}, {'kind': 'out', 'prev': 3}, {'kind': 'out', 'prev': 1}], 'ticks': 7}
+        cbw = [dict(win, nodes=[{'kind': 'src', 'q': 0}, {'kind': 'window', 'prev': 0, 'w': w_, 's': s_}, {'kind': 'out', 'prev': 1},
+                                {'kind': 'count', 'prev': 1, 'cbw': m_}, {'kind': 'out', 'prev': 3}], batch=b_)
+               for (w_, s_, m_, b_) in [(3, 2, 'slide', 1.0), (2, 1, 'noslide', 0.1), (4, 3, 'slide', 0.1), (1, 1, 'noslide', 1.0),
+                                        (3, 1, 'slide', 0.3), (2, 3, 'slide', 0.05)]]
         st = {'sources': [{'queue': [[{'t': [0, 1]}], [{'t': [1, 5]}], [], [{'t': [0, 2]}, {'t': [0, 3]}]], 'oneAtATime': True,
                            'default': None}],
               'nodes': [{'kind': 'src', 'q': 0}, {'kind': 'state', 'prev': 0, 'upd': 'sum'}, {'kind': 'out', 'prev': 1},
@@ -222,7 +231,7 @@ class C10(Prop):
         # rotation: in one interval a processed file disappears and a new one appears (same number of entries)
         files += [{'kind': 'files', 'pre': ['a.txt'], 'between': ['b.txt'], 'ticks': [['c.txt'], ['d.txt'], ['e.txt'], []],
                    'removes': [[], ['b.txt'], ['c.txt'], []], 'process_all': pa} for pa in (False, True)]
-        return [diamond, win, st, allq] + (files if self.focus == 'C10' else [])
+        return [diamond, win, st, allq] + cbw + (files if self.focus == 'C10' else [])
 
     def nontrivial(self, case):
         if case.get('kind') == 'files':
@@ -352,7 +361,16 @@ class C10(Prop):
                     elif k == 'reduce':
                         d = ds[n['prev']].reduce(F.BIN[n['f']])
                     elif k == 'count':
-                        d = ds[n['prev']].count()
+                        wn = case['nodes'][n['prev']] if n.get('cbw') else None
+                        if wn is not None and wn['kind'] == 'window':
+                            # the library's own countByWindow (a window of its own over the same parent, then count)
+                            bi = float(case.get('batch', 1.0))
+                            if wn['s'] == 1 and n['cbw'] == 'noslide':
+                                d = ds[wn['prev']].countByWindow(wn['w'] * bi)
+                            else:
+                                d = ds[wn['prev']].countByWindow(wn['w'] * bi, wn['s'] * bi)
+                        else:
+                            d = ds[n['prev']].count()
                     elif k == 'countByValue':
                         d = ds[n['prev']].countByValue()
                     elif k == 'union':
